@@ -111,13 +111,16 @@ def containsSub (p : Bytes) : Bytes → Bool
   | [] => p.isEmpty
   | a :: t => p.isPrefixOf (a :: t) || containsSub p t
 
+/-- `a :: t` is exactly one CRLF followed by text without line breaks -/
+def isLastCrlf (a : UInt8) (t : Bytes) : Bool :=
+  a == 13 && t.head? == some 10 && !hasNl t.tail
+
 /-- `last_newline(data)`: the start of the last line break (CRLF counted as one), or `len(data)` -/
 def lastNewline : Bytes → Nat
   | [] => 0
   | a :: t =>
     if hasNl t then
-      if a == 13 && (match t with | b :: t2 => b == 10 && !hasNl t2 | [] => false) then 0
-      else 1 + lastNewline t
+      if isLastCrlf a t then 0 else 1 + lastNewline t
     else if isNl a then 0
     else 1 + t.length
 
